@@ -7,6 +7,8 @@ import (
 	"go/types"
 	"math"
 	"regexp"
+	"sort"
+	"strconv"
 	"strings"
 
 	"golang.org/x/tools/go/ssa"
@@ -841,32 +843,69 @@ func runCALLSEQ(c *Ctx, r *Result, rule string) int {
 		return cl
 	}
 	n := 0
-	for _, ins := range instrsIn(call) {
-		cl, ok := ins.(*ssa.Call)
-		if !ok || staticName(cl) != "reflect.Value.Call" {
-			continue
+	// judge(args, at): the argument list args, used in block at, is validateArgTypes(validateArgCount(…))
+	// with both errors tested nil; a parameter of a helper is judged at every call of the helper
+	var judge func(f *ssa.Function, args ssa.Value, at *ssa.BasicBlock, depth int) string
+	judge = func(f *ssa.Function, args ssa.Value, at *ssa.BasicBlock, depth int) string {
+		if p, ok := args.(*ssa.Parameter); ok && depth < 2 && !c.G.AddrTaken[f] {
+			idx := -1
+			for i, q := range f.Params {
+				if q == p {
+					idx = i
+				}
+			}
+			sites := c.G.staticUse[f]
+			if idx < 0 || len(sites) == 0 || (f.Object() != nil && f.Object().Exported()) {
+				return "the Go function is invoked with an argument list that is not the result of validateArgTypes: unconverted or unchecked arguments reach it"
+			}
+			for _, ci := range sites {
+				if idx >= len(ci.Common().Args) {
+					return "unresolved call of " + shortFn(f)
+				}
+				if why := judge(ci.Parent(), ci.Common().Args[idx], ci.Block(), depth+1); why != "" {
+					return why + " (call of " + shortFn(f) + " at " + c.W.Pos(ci.Pos()) + ")"
+				}
+			}
+			return ""
 		}
-		n++
-		o := Obligation{Rule: rule, Key: fmt.Sprintf("(*goCallable).Call:invoke#%d", n), Fn: shortFn(call), Pos: c.W.Pos(cl.Pos()), Nontrivial: true}
-		args := cl.Call.Args[1]
 		t := firstResultOf(args, vt)
 		switch {
 		case t == nil:
-			o.Verdict, o.Reason = Finding, "the Go function is invoked with an argument list that is not the result of validateArgTypes: unconverted or unchecked arguments reach it"
-		case !errNilDominates(t, cl.Block()):
-			o.Verdict, o.Reason = Finding, "the Go function is invoked although validateArgTypes' error was not tested nil"
-		default:
-			cnt := firstResultOf(t.Call.Args[1], vc)
-			switch {
-			case cnt == nil:
-				o.Verdict, o.Reason = Finding, "validateArgTypes is given an argument list that did not go through validateArgCount (handlers, optional padding and the count check are skipped)"
-			case !errNilDominates(cnt, t.Block()):
-				o.Verdict, o.Reason = Finding, "validateArgTypes runs although validateArgCount's error was not tested nil"
-			default:
-				o.Verdict, o.Reason = Discharged, "fn.Call(argv) with argv = validateArgTypes(validateArgCount(argv)), each error tested nil on the way"
-			}
+			return "the Go function is invoked with an argument list that is not the result of validateArgTypes: unconverted or unchecked arguments reach it (a surplus argument is dropped silently instead of raising ArgCountError)"
+		case !errNilDominates(t, at):
+			return "the Go function is invoked although validateArgTypes' error was not tested nil"
 		}
-		r.Add(o)
+		cnt := firstResultOf(t.Call.Args[1], vc)
+		switch {
+		case cnt == nil:
+			return "validateArgTypes is given an argument list that did not go through validateArgCount (handlers, optional padding and the count check are skipped)"
+		case !errNilDominates(cnt, t.Block()):
+			return "validateArgTypes runs although validateArgCount's error was not tested nil"
+		}
+		return ""
+	}
+	recvT := call.Signature.Recv().Type()
+	var fns []*ssa.Function
+	for _, f := range c.W.FuncsOf(PkgSet{call.Pkg.Pkg: true}) {
+		if f.Signature.Recv() != nil && types.Identical(f.Signature.Recv().Type(), recvT) {
+			fns = append(fns, f)
+		}
+	}
+	for _, f := range fns {
+		for _, ins := range instrsIn(f) {
+			cl, ok := ins.(*ssa.Call)
+			if !ok || staticName(cl) != "reflect.Value.Call" {
+				continue
+			}
+			n++
+			o := Obligation{Rule: rule, Key: fmt.Sprintf("(*goCallable).Call:invoke#%d", n), Fn: shortFn(f), Pos: c.W.Pos(cl.Pos()), Nontrivial: true}
+			if why := judge(f, cl.Call.Args[1], cl.Block(), 0); why != "" {
+				o.Verdict, o.Reason = Finding, why
+			} else {
+				o.Verdict, o.Reason = Discharged, "fn.Call(argv) with argv = validateArgTypes(validateArgCount(argv)), each error tested nil on the way (at every call site when the invocation lives in a helper)"
+			}
+			r.Add(o)
+		}
 	}
 	return n
 }
@@ -1672,7 +1711,18 @@ func runOPTALL(c *Ctx, r *Result, rule string) int {
 // ---------------------------------------------------------------------------------------
 
 func runESCSKIP(c *Ctx, r *Result, rule string) int {
-	f := c.mustFn(r, "jparse.(*lexer).scanString")
+	return runESCSKIPOn(c, r, rule, "jparse.(*lexer).scanString", "scanString")
+}
+
+// runESCSKIPOn applies the rule to the scanner method fname (scanString for string literals,
+// scanRegex for regular-expression literals, where the escaped rune may be the delimiter "/").
+// Besides the form "on a backslash read one more rune" it knows the form "remember the previous
+// rune": the comparison of a loop-carried variable with the escape character. That form is right
+// only if the variable does not hold the escaped rune in the next round (after "\\" the second
+// backslash would escape what follows): on every path from the escaped case back to the loop head
+// the value carried over must not be the rune just read.
+func runESCSKIPOn(c *Ctx, r *Result, rule, fname, label string) int {
+	f := c.mustFn(r, fname)
 	next := c.mustFn(r, "jparse.(*lexer).nextRune")
 	if f == nil || next == nil {
 		return 0
@@ -1714,10 +1764,68 @@ func runESCSKIP(c *Ctx, r *Result, rule string) int {
 			}
 		}
 		if read == nil {
+			// the previous-rune form
+			for _, pr := range [][2]ssa.Value{{bo.X, bo.Y}, {bo.Y, bo.X}} {
+				k, isK := intConstOf(pr[1])
+				phi, isPhi := pr[0].(*ssa.Phi)
+				if !isK || k != '\\' || !isPhi {
+					continue
+				}
+				hd := phi.Block()
+				back := false
+				for _, p := range hd.Preds {
+					if hd.Dominates(p) {
+						back = true
+					}
+				}
+				if !back {
+					continue
+				}
+				n++
+				o := Obligation{Rule: rule, Key: fmt.Sprintf("%s:escape-prev#%d", label, n), Fn: shortFn(f), Pos: c.W.Pos(bo.Pos()), Nontrivial: true}
+				esc := hb.Succs[0]
+				if bo.Op == token.NEQ {
+					esc = hb.Succs[1]
+				}
+				// walk from the escaped case to the loop head; look at what the head's phi receives
+				bad := false
+				seenB := map[*ssa.BasicBlock]bool{}
+				var walk func(b *ssa.BasicBlock)
+				walk = func(b *ssa.BasicBlock) {
+					if seenB[b] || bad {
+						return
+					}
+					seenB[b] = true
+					for _, sb := range b.Succs {
+						if sb == hd {
+							for i, p := range hd.Preds {
+								if p != b {
+									continue
+								}
+								in := phi.Edges[i]
+								// resolve a merge phi on the way: the value it has when coming from the
+								// blocks we walked is not tracked, so anything but a constant is suspect
+								if _, isConst := in.(*ssa.Const); !isConst {
+									bad = true
+								}
+							}
+							continue
+						}
+						walk(sb)
+					}
+				}
+				walk(esc)
+				if bad {
+					o.Verdict, o.Reason = Finding, "the scanner decides \"escaped\" by the previous rune, and after an escaped rune that rune itself is carried over as the previous one: in \"\\\\\" followed by the delimiter the second backslash escapes the delimiter, so a literal that ends in an escaped backslash is not terminated where it ends"
+				} else {
+					o.Verdict, o.Reason = Discharged, "previous-rune form: after an escaped rune a constant is carried over, so the escaped rune cannot escape the next one"
+				}
+				r.Add(o)
+			}
 			continue
 		}
 		n++
-		o := Obligation{Rule: rule, Key: fmt.Sprintf("scanString:escape#%d", n), Fn: shortFn(f), Pos: c.W.Pos(bo.Pos()), Nontrivial: true}
+		o := Obligation{Rule: rule, Key: fmt.Sprintf("%s:escape#%d", label, n), Fn: shortFn(f), Pos: c.W.Pos(bo.Pos()), Nontrivial: true}
 		esc := hb.Succs[0]
 		if bo.Op == token.NEQ {
 			esc = hb.Succs[1]
@@ -1751,8 +1859,8 @@ func runESCSKIP(c *Ctx, r *Result, rule string) int {
 		r.Add(o)
 	}
 	if n == 0 {
-		r.Add(Obligation{Rule: rule, Key: "scanString:escape", Fn: shortFn(f), Pos: c.W.Pos(f.Pos()), Nontrivial: true, Verdict: Undecided,
-			Reason: "scanString does not compare the rune it reads with the escape character: how it finds the end of a literal that contains escaped quotes is not decided by this rule"})
+		r.Add(Obligation{Rule: rule, Key: label + ":escape", Fn: shortFn(f), Pos: c.W.Pos(f.Pos()), Nontrivial: true, Verdict: Undecided,
+			Reason: label + " does not compare the rune it reads with the escape character: how it finds the end of a literal that contains an escaped delimiter is not decided by this rule"})
 		n++
 	}
 	return n
@@ -2083,4 +2191,1154 @@ func runPARENS(c *Ctx, r *Result, rule string) int {
 	}
 	r.Add(o)
 	return n
+}
+
+// ---------------------------------------------------------------------------------------
+// RANGE12 (C19): the 12-hour clock shows 12, 1 … 11 — never 0, never more than 12.
+//
+// Interval proof with the difference-constraint prover of BND: in the function registered for
+// the 12-hour component (the case of expandDateComponent for that component constant), and in
+// the helper it calls with a constant-true flag, every integer handed to the integer formatter
+// is shown to lie in [1, 12] (time.Time.Hour is in [0, 23]; x % 12 is in [0, 11]; a value shown
+// different from 0 and non-negative is at least 1; edges that contradict the flag are not taken).
+// ---------------------------------------------------------------------------------------
+
+func runRANGE12(c *Ctx, r *Result, rule string) int {
+	exp := c.mustFn(r, "jxpath.expandDateComponent")
+	fmtInt := c.mustFn(r, "jxpath.formatIntegerComponent")
+	if exp == nil || fmtInt == nil {
+		return 0
+	}
+	var k12 int64 = -1
+	if k, ok := exp.Pkg.Pkg.Scope().Lookup("dateHour12").(*types.Const); ok {
+		k12, _ = constant.Int64Val(k.Val())
+	}
+	if k12 < 0 {
+		r.LoseAnchor("RANGE12: constant dateHour12 not found")
+		return 0
+	}
+	// the function the 12-hour case calls
+	var f12 *ssa.Function
+	for _, b := range exp.Blocks {
+		ks, ok := caseConstsOf(b, func(v ssa.Value) bool { return true })
+		if !ok {
+			continue
+		}
+		is12 := false
+		for _, k := range ks {
+			if k == k12 {
+				is12 = true
+			}
+		}
+		if !is12 {
+			continue
+		}
+		for _, ins := range b.Instrs {
+			if call, ok := ins.(*ssa.Call); ok {
+				if g := call.Call.StaticCallee(); g != nil && g.Pkg == exp.Pkg {
+					f12 = g
+				}
+			}
+		}
+	}
+	if f12 == nil {
+		r.LoseAnchor("RANGE12: the formatter of the 12-hour component was not found in expandDateComponent")
+		return 0
+	}
+	bndCtx = c
+	n := 0
+	check := func(f *ssa.Function, assume map[ssa.Value]bool) {
+		for _, ins := range instrsIn(f) {
+			call, ok := ins.(*ssa.Call)
+			if !ok || call.Call.StaticCallee() != fmtInt || len(call.Call.Args) < 1 {
+				continue
+			}
+			n++
+			o := Obligation{Rule: rule, Key: fmt.Sprintf("%s:hour12#%d", shortFn(f), n), Fn: shortFn(f), Pos: c.W.Pos(call.Pos()), Nontrivial: true}
+			p := newBndProver(c, call, 0)
+			p.assume = assume
+			x := bnorm(call.Call.Args[0])
+			lo := p.prove(blin{c: 1}, x)
+			hi := p.prove(x, blin{c: 12})
+			switch {
+			case lo && hi:
+				o.Verdict, o.Reason = Discharged, "the hour handed to the integer formatter for [h] is shown to lie in 1..12"
+			case !lo:
+				o.Verdict, o.Reason = Finding, "the hour handed to the integer formatter for [h] can be 0: the 12-hour clock must show 12 for the midnight (and noon) hour"
+			default:
+				o.Verdict, o.Reason = Finding, "the hour handed to the integer formatter for [h] can exceed 12"
+			}
+			r.Add(o)
+		}
+	}
+	check(f12, nil)
+	for _, ci := range callsIn(f12) {
+		g := ci.Common().StaticCallee()
+		if g == nil || g.Pkg != f12.Pkg || g == fmtInt || len(g.Blocks) == 0 {
+			continue
+		}
+		assume := map[ssa.Value]bool{}
+		for i, a := range ci.Common().Args {
+			if k, ok := a.(*ssa.Const); ok && k.Value != nil && k.Value.Kind() == constant.Bool && i < len(g.Params) {
+				assume[g.Params[i]] = constant.BoolVal(k.Value)
+			}
+		}
+		if len(assume) > 0 {
+			check(g, assume)
+		}
+	}
+	return n
+}
+
+// ---------------------------------------------------------------------------------------
+// CLOSURE (C12): a function value that closes over its definition site is never altered.
+//
+// The closure types are the struct types of package jsonata whose pointer implements
+// jtypes.Callable and that hold an *environment (the bindings of the definition site). Every
+// store into a field of such a struct, and every store of a whole struct of such a type, must
+// go to an object the storing function itself has just allocated (the composite literal that
+// builds the function value, or a private copy). A store through any other pointer changes a
+// function value that already exists: its context item, body, parameters or scope would depend
+// on who called it before.
+// ---------------------------------------------------------------------------------------
+
+func runCLOSURE(c *Ctx, r *Result, rule string) int {
+	lib := c.W.Lib["jsonata"]
+	jt := c.W.Lib["jtypes"]
+	if lib == nil || jt == nil {
+		r.LoseAnchor("CLOSURE: packages jsonata/jtypes not loaded")
+		return 0
+	}
+	callableObj, _ := jt.Types.Scope().Lookup("Callable").(*types.TypeName)
+	envObj, _ := lib.Types.Scope().Lookup("environment").(*types.TypeName)
+	if callableObj == nil || envObj == nil {
+		r.LoseAnchor("CLOSURE: jtypes.Callable or jsonata.environment not found")
+		return 0
+	}
+	iface := callableObj.Type().Underlying().(*types.Interface)
+	closure := map[*types.Named]bool{}
+	for _, name := range lib.Types.Scope().Names() {
+		tn, ok := lib.Types.Scope().Lookup(name).(*types.TypeName)
+		if !ok {
+			continue
+		}
+		nt, ok := tn.Type().(*types.Named)
+		if !ok {
+			continue
+		}
+		st, ok := nt.Underlying().(*types.Struct)
+		if !ok || !types.Implements(types.NewPointer(nt), iface) {
+			continue
+		}
+		for i := 0; i < st.NumFields(); i++ {
+			if p, ok := st.Field(i).Type().(*types.Pointer); ok && types.Identical(p.Elem(), envObj.Type()) {
+				closure[nt] = true
+			}
+		}
+	}
+	r.Count(rule+" closure types (callables holding an *environment)", len(closure))
+	if len(closure) == 0 {
+		r.LoseAnchor("CLOSURE: no callable type holds an *environment")
+		return 0
+	}
+	closureOf := func(t types.Type) *types.Named {
+		if p, ok := t.Underlying().(*types.Pointer); ok {
+			if nt, ok := p.Elem().(*types.Named); ok && closure[nt] {
+				return nt
+			}
+		}
+		return nil
+	}
+	n := 0
+	for _, f := range c.W.FuncsOf(PkgSet{lib.Types: true}) {
+		ord := map[string]int{}
+		for _, ins := range instrsIn(f) {
+			st, ok := ins.(*ssa.Store)
+			if !ok {
+				continue
+			}
+			var obj ssa.Value
+			var nt *types.Named
+			what := ""
+			if fa, ok := st.Addr.(*ssa.FieldAddr); ok {
+				if nt = closureOf(fa.X.Type()); nt != nil {
+					obj = fa.X
+					what = "field " + nt.Underlying().(*types.Struct).Field(fa.Field).Name()
+				}
+			}
+			if nt == nil {
+				if nt = closureOf(st.Addr.Type()); nt != nil {
+					obj = st.Addr
+					what = "the whole struct"
+				}
+			}
+			if nt == nil {
+				continue
+			}
+			n++
+			k := nt.Obj().Name() + "." + strings.TrimPrefix(what, "field ")
+			ord[k]++
+			o := Obligation{Rule: rule, Key: fmt.Sprintf("%s:%s#%d", shortFn(f), k, ord[k]), Fn: shortFn(f), Pos: c.W.Pos(st.Pos()), Nontrivial: true}
+			if _, fresh := obj.(*ssa.Alloc); fresh {
+				o.Verdict, o.Reason = Discharged, "store into "+what+" of a "+nt.Obj().Name()+" that this function has just allocated (construction or private copy)"
+			} else if closureInitParam(c, f, obj) {
+				o.Verdict, o.Reason = Discharged, "store into "+what+" of a "+nt.Obj().Name()+" handed in by callers that have all just allocated it (an initialiser called from the constructing functions only)"
+			} else {
+				o.Verdict, o.Reason = Finding, "store into "+what+" of a "+nt.Obj().Name()+" that already exists: the function value no longer keeps what it had at its definition site (a later call sees what an earlier call left)"
+			}
+			r.Add(o)
+		}
+	}
+	return n
+}
+
+// closureInitParam: obj is a parameter of f, f is only ever called directly (it is not used as
+// a value and is not an exported method reachable through an interface), and at every call the
+// argument is an allocation of the caller.
+func closureInitParam(c *Ctx, f *ssa.Function, obj ssa.Value) bool {
+	p, ok := obj.(*ssa.Parameter)
+	if !ok || c.G.AddrTaken[f] {
+		return false
+	}
+	idx := -1
+	for i, q := range f.Params {
+		if q == p {
+			idx = i
+		}
+	}
+	sites := c.G.staticUse[f]
+	if idx < 0 || len(sites) == 0 {
+		return false
+	}
+	if f.Signature.Recv() != nil {
+		// a method may be called through an interface: only unexported methods that no
+		// interface of the module declares are safe to treat as direct-call only
+		if f.Object() == nil || f.Object().Exported() {
+			return false
+		}
+		for _, T := range c.G.named {
+			if it, ok := T.Underlying().(*types.Interface); ok {
+				for i := 0; i < it.NumMethods(); i++ {
+					if it.Method(i).Name() == f.Name() {
+						return false
+					}
+				}
+			}
+		}
+	}
+	for _, ci := range sites {
+		args := ci.Common().Args
+		if idx >= len(args) {
+			return false
+		}
+		if _, ok := args[idx].(*ssa.Alloc); !ok {
+			return false
+		}
+	}
+	return true
+}
+
+// ---------------------------------------------------------------------------------------
+// FLAT1 (C01): a path step splices array-valued results one level, never recursively.
+//
+// Necessary condition in the shape of the code: the functions that evalPathStep (and the path
+// evaluator around it) reach without going back through the node dispatcher eval contain no
+// recursion. Evaluating a sub-expression legitimately recurses through eval; anything else
+// that recurses under a path step walks a value to arbitrary depth (the recursive flattener
+// that the wildcard and descendant operators use is the one that exists today).
+// ---------------------------------------------------------------------------------------
+
+func runFLAT1(c *Ctx, r *Result, rule string) int {
+	disp := c.mustFn(r, "jsonata.eval")
+	var roots []*ssa.Function
+	for _, n := range []string{"jsonata.evalPathStep", "jsonata.evalPath"} {
+		if f := c.mustFn(r, n); f != nil {
+			roots = append(roots, f)
+		}
+	}
+	if disp == nil || len(roots) == 0 {
+		return 0
+	}
+	set := map[*ssa.Function]bool{}
+	var order []*ssa.Function
+	var visit func(f *ssa.Function)
+	visit = func(f *ssa.Function) {
+		if set[f] || f == disp {
+			return
+		}
+		set[f] = true
+		order = append(order, f)
+		for _, e := range c.G.Out[f] {
+			if e.Kind == "callback" {
+				continue // String/Error methods a library may call on a value: not value walking
+			}
+			visit(e.Callee)
+		}
+	}
+	for _, f := range roots {
+		visit(f)
+	}
+	reaches := func(from, to *ssa.Function) bool {
+		seen := map[*ssa.Function]bool{}
+		var dfs func(f *ssa.Function) bool
+		dfs = func(f *ssa.Function) bool {
+			for _, e := range c.G.Out[f] {
+				g := e.Callee
+				if g == disp || !set[g] || e.Kind == "callback" {
+					continue
+				}
+				if g == to {
+					return true
+				}
+				if !seen[g] {
+					seen[g] = true
+					if dfs(g) {
+						return true
+					}
+				}
+			}
+			return false
+		}
+		return dfs(from)
+	}
+	sortFns(order)
+	n := 0
+	for _, f := range order {
+		if f.Synthetic != "" {
+			continue
+		}
+		n++
+		o := Obligation{Rule: rule, Key: "norec:" + shortFn(f), Fn: shortFn(f), Pos: c.W.Pos(f.Pos()), Nontrivial: true}
+		if reaches(f, f) {
+			o.Verdict, o.Reason = Finding, "recursive function reachable from a path step without passing through eval: a step result would be walked to arbitrary depth, but array-valued step results are spliced one level only"
+		} else {
+			o.Verdict, o.Reason = Discharged, "reached from evalPath/evalPathStep outside eval and not part of any call cycle"
+		}
+		r.Add(o)
+	}
+	return n
+}
+
+// ---------------------------------------------------------------------------------------
+// RANGECAP (C03): a size computed from JSONata numbers is capped before it sizes anything.
+//
+// Every integer obtained by converting a float (and what is derived from it by adding or
+// subtracting constants, or by handing it to a function of the package) that
+//   (a) becomes the length or capacity of a slice that is made,
+//   (b) initialises the counter of a loop, or
+//   (c) is the bound in the condition of a loop
+// must be shown, at that point, to be at most the constant maxRangeItems (interval proof with
+// the difference-constraint prover over the dominating branches). A second way of materialising
+// a range that forgets the test produces the ten-million-and-one items as a value.
+// ---------------------------------------------------------------------------------------
+
+func runRANGECAP(c *Ctx, r *Result, rule string, fns []*ssa.Function) int {
+	lib := c.W.Lib["jsonata"]
+	var K int64 = -1
+	if lib != nil {
+		if k, ok := lib.Types.Scope().Lookup("maxRangeItems").(*types.Const); ok {
+			K, _ = constant.Int64Val(k.Val())
+		}
+	}
+	if K <= 0 {
+		r.LoseAnchor("RANGECAP: constant maxRangeItems not found")
+		return 0
+	}
+	bndCtx = c
+	n := 0
+	type job struct {
+		f    *ssa.Function
+		v    ssa.Value
+		from string
+		d    int
+	}
+	var jobs []job
+	for _, f := range fns {
+		ord := 0
+		for _, ins := range instrsIn(f) {
+			cv, ok := ins.(*ssa.Convert)
+			if !ok || !isFloatT(cv.X.Type()) {
+				continue
+			}
+			if b, ok := cv.Type().Underlying().(*types.Basic); !ok || b.Info()&types.IsInteger == 0 {
+				continue
+			}
+			ord++
+			jobs = append(jobs, job{f, cv, fmt.Sprintf("%s:int#%d", shortFn(f), ord), 0})
+		}
+	}
+	reaches := func(from, b *ssa.BasicBlock) bool {
+		if from == b {
+			return true
+		}
+		seen := map[*ssa.BasicBlock]bool{}
+		var dfs func(x *ssa.BasicBlock) bool
+		dfs = func(x *ssa.BasicBlock) bool {
+			for _, s := range x.Succs {
+				if s == b {
+					return true
+				}
+				if !seen[s] {
+					seen[s] = true
+					if dfs(s) {
+						return true
+					}
+				}
+			}
+			return false
+		}
+		return dfs(from)
+	}
+	// the block ends in a branch that decides between another round of a loop it is part of
+	// and leaving that loop
+	loopExitTest := func(b *ssa.BasicBlock) bool {
+		if len(b.Succs) != 2 {
+			return false
+		}
+		r0, r1 := reaches(b.Succs[0], b), reaches(b.Succs[1], b)
+		return r0 != r1
+	}
+	loopHeader := func(b *ssa.BasicBlock) bool {
+		for _, pr := range b.Preds {
+			if b.Dominates(pr) {
+				return true
+			}
+		}
+		return false
+	}
+	done := map[string]bool{}
+	for len(jobs) > 0 {
+		j := jobs[0]
+		jobs = jobs[1:]
+		// derived values within the function
+		derived := map[ssa.Value]bool{j.v: true}
+		for changed := true; changed; {
+			changed = false
+			for _, ins := range instrsIn(j.f) {
+				bo, ok := ins.(*ssa.BinOp)
+				if !ok || derived[bo] || (bo.Op != token.ADD && bo.Op != token.SUB) {
+					continue
+				}
+				_, cx := bo.X.(*ssa.Const)
+				_, cy := bo.Y.(*ssa.Const)
+				if (derived[bo.X] && cy) || (derived[bo.Y] && cx && bo.Op == token.ADD) {
+					derived[bo] = true
+					changed = true
+				}
+			}
+		}
+		ord := 0
+		check := func(at ssa.Instruction, d ssa.Value, what string) {
+			ord++
+			n++
+			key := fmt.Sprintf("%s>%s#%d", j.from, what, ord)
+			if j.d > 0 {
+				key = fmt.Sprintf("%s>%s:%s#%d", j.from, shortFn(j.f), what, ord)
+			}
+			if done[key] {
+				return
+			}
+			done[key] = true
+			o := Obligation{Rule: rule, Key: key, Fn: shortFn(j.f), Pos: c.W.Pos(at.Pos()), Nontrivial: true}
+			if o.Pos == "" || o.Pos == "-" {
+				o.Pos = c.W.Pos(j.f.Pos())
+			}
+			p := newBndProver(c, at, 0)
+			if p.prove(bnorm(d), blin{c: K}) {
+				o.Verdict, o.Reason = Discharged, fmt.Sprintf("the size is shown to be at most maxRangeItems (%d) where it is used as %s", K, what)
+			} else {
+				o.Verdict, o.Reason = Finding, fmt.Sprintf("a size converted from a JSONata number is used as %s with no test against maxRangeItems (%d) before it: a range of more than ten million items is materialised instead of being reported as an error", what, K)
+			}
+			r.Add(o)
+		}
+		for _, ins := range instrsIn(j.f) {
+			switch x := ins.(type) {
+			case *ssa.MakeSlice:
+				if derived[x.Len] {
+					check(x, x.Len, "slice length")
+				}
+				if derived[x.Cap] && x.Cap != x.Len {
+					check(x, x.Cap, "slice capacity")
+				}
+			case *ssa.Call:
+				g := x.Call.StaticCallee()
+				if g != nil && g.String() == "reflect.MakeSlice" {
+					for i, a := range x.Call.Args {
+						if i >= 1 && derived[a] && (i == 1 || a != x.Call.Args[1]) {
+							check(x, a, "slice length/capacity")
+						}
+					}
+					continue
+				}
+				if g != nil && g.Pkg == j.f.Pkg && len(g.Blocks) > 0 && j.d < 2 {
+					for i, a := range x.Call.Args {
+						if derived[a] && i < len(g.Params) {
+							// the callee's parameter carries the size: it has to be capped at the call
+							// (then the callee may rely on it) or inside the callee
+							p := newBndProver(c, x, 0)
+							if !p.prove(bnorm(a), blin{c: K}) {
+								jobs = append(jobs, job{g, g.Params[i], j.from, j.d + 1})
+							}
+						}
+					}
+				}
+			case *ssa.Phi:
+				if !loopHeader(x.Block()) {
+					continue
+				}
+				for i, e := range x.Edges {
+					if derived[e] && !x.Block().Dominates(x.Block().Preds[i]) {
+						pr := x.Block().Preds[i]
+						check(pr.Instrs[len(pr.Instrs)-1], e, "initial value of a loop counter")
+					}
+				}
+			case *ssa.BinOp:
+				switch x.Op {
+				case token.LSS, token.LEQ, token.GTR, token.GEQ, token.NEQ:
+				default:
+					continue
+				}
+				if iff, ok := x.Block().Instrs[len(x.Block().Instrs)-1].(*ssa.If); !ok || iff.Cond != x || !loopExitTest(x.Block()) {
+					continue
+				}
+				if derived[x.X] {
+					check(x, x.X, "loop bound")
+				} else if derived[x.Y] {
+					check(x, x.Y, "loop bound")
+				}
+			}
+		}
+	}
+	return n
+}
+
+// ---------------------------------------------------------------------------------------
+// PERITEM (C13): what a list loop of the parser records for one element is decided within that
+// element's own round of the loop.
+//
+// In the functions given (the parser functions that build the sort terms), every value stored
+// into a field of a record that is built inside a loop is traced back through phis and
+// conversions; reaching a phi at the head of an enclosing loop with a back edge means the value
+// is carried over from the previous element (a direction that is not reset for the next sort
+// term). The accumulating list itself is not a field of the element and is not concerned.
+// ---------------------------------------------------------------------------------------
+
+func runPERITEM(c *Ctx, r *Result, rule string, fns []*ssa.Function) int {
+	n := 0
+	for _, f := range fns {
+		header := map[*ssa.BasicBlock]bool{}
+		for _, b := range f.Blocks {
+			for _, pr := range b.Preds {
+				if b.Dominates(pr) {
+					header[b] = true
+				}
+			}
+		}
+		if len(header) == 0 {
+			continue
+		}
+		inSomeLoop := func(b *ssa.BasicBlock) bool {
+			for h := range header {
+				if !h.Dominates(b) {
+					continue
+				}
+				// b is in the natural loop of h if b reaches h without leaving h's dominance
+				seen := map[*ssa.BasicBlock]bool{}
+				var dfs func(x *ssa.BasicBlock) bool
+				dfs = func(x *ssa.BasicBlock) bool {
+					if x == h {
+						return true
+					}
+					if seen[x] || !h.Dominates(x) {
+						return false
+					}
+					seen[x] = true
+					for _, s := range x.Succs {
+						if dfs(s) {
+							return true
+						}
+					}
+					return false
+				}
+				for _, s := range b.Succs {
+					if dfs(s) {
+						return true
+					}
+				}
+			}
+			return false
+		}
+		freshBase := func(v ssa.Value) bool {
+			for i := 0; i < 6; i++ {
+				switch x := v.(type) {
+				case *ssa.Alloc:
+					return true
+				case *ssa.IndexAddr:
+					v = x.X
+				case *ssa.FieldAddr:
+					v = x.X
+				default:
+					return false
+				}
+			}
+			return false
+		}
+		ord := map[string]int{}
+		for _, ins := range instrsIn(f) {
+			st, ok := ins.(*ssa.Store)
+			if !ok || !inSomeLoop(st.Block()) {
+				continue
+			}
+			fa, ok := st.Addr.(*ssa.FieldAddr)
+			if !ok || !freshBase(fa.X) {
+				continue
+			}
+			stT, ok := deref(fa.X.Type()).Underlying().(*types.Struct)
+			if !ok {
+				continue
+			}
+			fname := stT.Field(fa.Field).Name()
+			tname := types.TypeString(deref(fa.X.Type()), func(*types.Package) string { return "" })
+			k := tname + "." + fname
+			ord[k]++
+			n++
+			o := Obligation{Rule: rule, Key: fmt.Sprintf("%s:%s#%d", shortFn(f), k, ord[k]), Fn: shortFn(f), Pos: c.W.Pos(st.Pos()), Nontrivial: true}
+			// trace the value
+			var carried *ssa.Phi
+			seen := map[ssa.Value]bool{}
+			var walk func(v ssa.Value)
+			walk = func(v ssa.Value) {
+				if seen[v] || carried != nil {
+					return
+				}
+				seen[v] = true
+				switch x := v.(type) {
+				case *ssa.Phi:
+					if header[x.Block()] {
+						for i, pr := range x.Block().Preds {
+							if x.Block().Dominates(pr) {
+								if _, isConst := x.Edges[i].(*ssa.Const); !isConst {
+									carried = x
+									return
+								}
+							}
+						}
+					}
+					for _, e := range x.Edges {
+						walk(e)
+					}
+				case *ssa.Convert:
+					walk(x.X)
+				case *ssa.ChangeType:
+					walk(x.X)
+				case *ssa.MakeInterface:
+					walk(x.X)
+				}
+			}
+			walk(st.Val)
+			if carried != nil {
+				o.Verdict, o.Reason = Finding, "the value recorded in field "+fname+" of the element comes from "+describeVal(carried)+", a variable carried over from the previous round of the loop: an element without its own marker inherits the previous element's (a sort term without < or > takes the direction of the term before it)"
+			} else {
+				o.Verdict, o.Reason = Discharged, "the value recorded in field "+fname+" is computed within the element's own round of the loop"
+			}
+			r.Add(o)
+		}
+	}
+	return n
+}
+
+// ---------------------------------------------------------------------------------------
+// ARGUSE (C19): every argument of $fromMillis is consulted on every successful path.
+//
+// Forward must-analysis over the CFG of the function: a parameter is consulted by an
+// instruction that reads it (or a field of it, through the spill slot go/ssa gives a struct
+// parameter) as an operand of a comparison, a call, an arithmetic operation or a return. At every
+// return that is not provably an error, every parameter must have been consulted on all paths
+// from the entry — a shortcut for one argument shape that returns before the time zone has been
+// looked at renders the instant in UTC and accepts an invalid zone.
+// ---------------------------------------------------------------------------------------
+
+func runARGUSE(c *Ctx, r *Result, rule string, f *ssa.Function) int {
+	if f == nil || len(f.Blocks) == 0 {
+		return 0
+	}
+	np := len(f.Params)
+	// values that merely carry parameter i: the parameter, its spill slot, addresses of the
+	// slot's fields, and loads from those
+	carrier := map[ssa.Value]int{}
+	for i, p := range f.Params {
+		carrier[p] = i
+	}
+	for changed := true; changed; {
+		changed = false
+		for _, ins := range instrsIn(f) {
+			switch x := ins.(type) {
+			case *ssa.Store:
+				if i, ok := carrier[x.Val]; ok {
+					if a, isAlloc := x.Addr.(*ssa.Alloc); isAlloc {
+						if _, had := carrier[a]; !had {
+							carrier[a] = i
+							changed = true
+						}
+					}
+				}
+			case *ssa.FieldAddr:
+				if i, ok := carrier[x.X]; ok {
+					if _, had := carrier[x]; !had {
+						carrier[x] = i
+						changed = true
+					}
+				}
+			case *ssa.Field:
+				if i, ok := carrier[x.X]; ok {
+					if _, had := carrier[x]; !had {
+						carrier[x] = i
+						changed = true
+					}
+				}
+			case *ssa.UnOp:
+				if x.Op == token.MUL {
+					if i, ok := carrier[x.X]; ok {
+						if _, had := carrier[x]; !had {
+							carrier[x] = i
+							changed = true
+						}
+					}
+				}
+			}
+		}
+	}
+	consults := func(ins ssa.Instruction) []int {
+		switch x := ins.(type) {
+		case *ssa.Store:
+			if _, isAlloc := x.Addr.(*ssa.Alloc); isAlloc {
+				if _, ok := carrier[x.Val]; ok {
+					return nil // the spill itself
+				}
+			}
+		case *ssa.FieldAddr, *ssa.Field, *ssa.DebugRef:
+			return nil
+		case *ssa.UnOp:
+			if x.Op == token.MUL {
+				return nil
+			}
+		}
+		var out []int
+		var ops []*ssa.Value
+		for _, op := range ins.Operands(ops) {
+			if op == nil || *op == nil {
+				continue
+			}
+			if i, ok := carrier[*op]; ok {
+				if _, isAlloc := (*op).(*ssa.Alloc); isAlloc {
+					continue
+				}
+				out = append(out, i)
+			}
+		}
+		return out
+	}
+	full := uint64(1)<<uint(np) - 1
+	in := map[*ssa.BasicBlock]uint64{}
+	out := map[*ssa.BasicBlock]uint64{}
+	gen := map[*ssa.BasicBlock]uint64{}
+	for _, b := range f.Blocks {
+		for _, ins := range b.Instrs {
+			for _, i := range consults(ins) {
+				gen[b] |= 1 << uint(i)
+			}
+		}
+		in[b], out[b] = full, full
+	}
+	in[f.Blocks[0]] = 0
+	for changed := true; changed; {
+		changed = false
+		for _, b := range f.Blocks {
+			v := full
+			if b == f.Blocks[0] {
+				v = 0
+			}
+			for _, pr := range b.Preds {
+				v &= out[pr]
+			}
+			if b != f.Blocks[0] && len(b.Preds) == 0 {
+				v = full // unreachable
+			}
+			o := v | gen[b]
+			if v != in[b] || o != out[b] {
+				in[b], out[b] = v, o
+				changed = true
+			}
+		}
+	}
+	n := 0
+	nret := 0
+	missing := make([][]string, np)
+	for _, b := range f.Blocks {
+		ret, ok := b.Instrs[len(b.Instrs)-1].(*ssa.Return)
+		if !ok || !isSuccessReturn(ret) {
+			continue
+		}
+		nret++
+		for i := 0; i < np; i++ {
+			if out[b]&(1<<uint(i)) == 0 {
+				missing[i] = append(missing[i], c.W.Pos(ret.Pos()))
+			}
+		}
+	}
+	if nret == 0 {
+		r.LoseAnchor("ARGUSE: %s has no success return", shortFn(f))
+		return 0
+	}
+	for i, p := range f.Params {
+		n++
+		o := Obligation{Rule: rule, Key: fmt.Sprintf("%s:param#%d", shortFn(f), i), Fn: shortFn(f), Pos: c.W.Pos(f.Pos()), Nontrivial: true}
+		if len(missing[i]) > 0 {
+			o.Verdict, o.Reason = Finding, fmt.Sprintf("argument %s is not consulted on some path to the successful return at %s: the result on that path cannot depend on it (an instant rendered without looking at the time zone, or an invalid zone accepted)", p.Name(), strings.Join(missing[i], ", "))
+		} else {
+			o.Verdict, o.Reason = Discharged, fmt.Sprintf("argument %s is read on every path to each of the %d successful returns", p.Name(), nret)
+		}
+		r.Add(o)
+	}
+	return n
+}
+
+// ---------------------------------------------------------------------------------------
+// NUMKINDS (C15): what counts as a number is decided in one place.
+//
+// jtypes.AsNumber / IsNumber accept every Go integer, unsigned and float kind (a built-in such
+// as $toMillis returns an int64, $count an int, the caller's document may hold any of them). A
+// type switch or a comma-ok type assertion on an interface value that tests for SOME numeric
+// types classifies the remaining kinds as non-numbers. Rule, for the functions under Eval
+// outside package jtypes: the numeric types tested on one value are either all twelve numeric
+// kinds or none; a reviewed exception names the construct.
+// ---------------------------------------------------------------------------------------
+
+var numkindsExceptions = map[string]string{
+	"jlib.String:float64": "the case only adds a NaN/Inf check for float64 before the value goes to the JSON encoder, which every other kind reaches as well: nothing is classified as a non-number",
+}
+
+func runNUMKINDS(c *Ctx, r *Result, rule string, fns []*ssa.Function) int {
+	all := []types.BasicKind{types.Int, types.Int8, types.Int16, types.Int32, types.Int64, types.Uint, types.Uint8, types.Uint16, types.Uint32, types.Uint64, types.Float32, types.Float64}
+	n := 0
+	for _, f := range fns {
+		if f.Pkg != nil && f.Pkg.Pkg.Name() == "jtypes" {
+			continue
+		}
+		byVal := map[ssa.Value]map[types.BasicKind]bool{}
+		pos := map[ssa.Value]token.Pos{}
+		var order []ssa.Value
+		for _, ins := range instrsIn(f) {
+			ta, ok := ins.(*ssa.TypeAssert)
+			if !ok || !ta.CommaOk {
+				continue
+			}
+			b, ok := ta.AssertedType.(*types.Basic)
+			if !ok || b.Info()&types.IsNumeric == 0 || b.Info()&types.IsComplex != 0 {
+				continue
+			}
+			if byVal[ta.X] == nil {
+				byVal[ta.X] = map[types.BasicKind]bool{}
+				pos[ta.X] = ta.Pos()
+				order = append(order, ta.X)
+			}
+			byVal[ta.X][b.Kind()] = true
+		}
+		for _, v := range order {
+			n++
+			var have, miss []string
+			for _, k := range all {
+				if byVal[v][k] {
+					have = append(have, types.Typ[k].Name())
+				} else {
+					miss = append(miss, types.Typ[k].Name())
+				}
+			}
+			key := shortFn(f) + ":" + strings.Join(have, ",")
+			o := Obligation{Rule: rule, Key: key, Fn: shortFn(f), Pos: c.W.Pos(pos[v]), Nontrivial: true}
+			switch {
+			case len(miss) == 0:
+				o.Verdict, o.Reason = Discharged, "the type switch tests all twelve numeric kinds"
+			case numkindsExceptions[key] != "":
+				o.Verdict, o.Reason = Exception, "reviewed ("+key+"): "+numkindsExceptions[key]
+			default:
+				o.Verdict, o.Reason = Finding, "a type switch recognises "+strings.Join(have, ", ")+" as numbers but not "+strings.Join(miss, ", ")+", which jtypes.AsNumber accepts: a numeric member of another kind (the int64 of $toMillis/$millis, any integer kind in the caller's document) is treated as a non-number"
+			}
+			r.Add(o)
+		}
+	}
+	return n
+}
+
+// ---------------------------------------------------------------------------------------
+// CLAUSECTX (C07): the update and delete clauses of a transform are evaluated once for each
+// matched object, with that object as the context.
+//
+// Every eval(f.updates, D, …) and eval(f.deletes, D, …) (f a transformationCallable): D must be
+// an element picked by index out of the list that eval(f.pattern, …) returned — directly, through
+// jtypes.Resolve/arrayify, or as the parameter of a helper whose callers all pass such an element.
+// A clause evaluated against anything else (the whole copy, the argument) yields one key list
+// for all matches: a context-relative delete removes the wrong names.
+// ---------------------------------------------------------------------------------------
+
+func runCLAUSECTX(c *Ctx, r *Result, rule string) int {
+	ev := c.mustFn(r, "jsonata.eval")
+	if ev == nil {
+		return 0
+	}
+	clauseOf := func(v ssa.Value) string {
+		ld, ok := v.(*ssa.UnOp)
+		if !ok {
+			return ""
+		}
+		fa, ok := ld.X.(*ssa.FieldAddr)
+		if !ok {
+			return ""
+		}
+		k := fieldKey(fa.X.Type(), fa.Field)
+		pre := repoModule + ".transformationCallable."
+		if strings.HasPrefix(k, pre) {
+			return strings.TrimPrefix(k, pre)
+		}
+		return ""
+	}
+	// strip the value-preserving wrappers
+	strip := func(v ssa.Value) ssa.Value {
+		for i := 0; i < 6; i++ {
+			call, ok := v.(*ssa.Call)
+			if !ok {
+				return v
+			}
+			g := call.Call.StaticCallee()
+			if g == nil || len(call.Call.Args) == 0 {
+				return v
+			}
+			switch shortFn(g) {
+			case "jtypes.Resolve", "jsonata.arrayify":
+				v = call.Call.Args[0]
+			default:
+				return v
+			}
+		}
+		return v
+	}
+	var isPatternList func(v ssa.Value, depth int) bool
+	isPatternList = func(v ssa.Value, depth int) bool {
+		v = strip(v)
+		switch x := v.(type) {
+		case *ssa.Extract:
+			if call, ok := x.Tuple.(*ssa.Call); ok && x.Index == 0 && call.Call.StaticCallee() == ev {
+				return clauseOf(call.Call.Args[0]) == "pattern"
+			}
+		case *ssa.Phi:
+			if depth > 3 {
+				return false
+			}
+			for _, e := range x.Edges {
+				if !isPatternList(e, depth+1) {
+					return false
+				}
+			}
+			return len(x.Edges) > 0
+		}
+		return false
+	}
+	var isMatchedItem func(f *ssa.Function, v ssa.Value, depth int) bool
+	isMatchedItem = func(f *ssa.Function, v ssa.Value, depth int) bool {
+		v = strip(v)
+		switch x := v.(type) {
+		case *ssa.Call:
+			if g := x.Call.StaticCallee(); g != nil && g.String() == "(reflect.Value).Index" && len(x.Call.Args) == 2 {
+				return isPatternList(x.Call.Args[0], 0)
+			}
+		case *ssa.Parameter:
+			if depth >= 2 || c.G.AddrTaken[f] {
+				return false
+			}
+			idx := -1
+			for i, p := range f.Params {
+				if p == x {
+					idx = i
+				}
+			}
+			sites := c.G.staticUse[f]
+			if idx < 0 || len(sites) == 0 {
+				return false
+			}
+			for _, ci := range sites {
+				if idx >= len(ci.Common().Args) || !isMatchedItem(ci.Parent(), ci.Common().Args[idx], depth+1) {
+					return false
+				}
+			}
+			return true
+		}
+		return false
+	}
+	n := 0
+	seen := map[string]int{}
+	for _, f := range c.W.FuncsOf(PkgSet{c.W.Lib["jsonata"].Types: true}) {
+		for _, ci := range callsIn(f) {
+			if ci.Common().StaticCallee() != ev || len(ci.Common().Args) < 2 {
+				continue
+			}
+			cl := clauseOf(ci.Common().Args[0])
+			if cl == "" || cl == "pattern" {
+				continue
+			}
+			n++
+			seen[cl]++
+			o := Obligation{Rule: rule, Key: fmt.Sprintf("%s:%s-context#%d", shortFn(f), cl, seen[cl]), Fn: shortFn(f), Pos: c.W.Pos(ci.Pos()), Nontrivial: true}
+			if isMatchedItem(f, ci.Common().Args[1], 0) {
+				o.Verdict, o.Reason = Discharged, "the "+cl+" clause is evaluated with an element of the list returned by eval(f.pattern, …) as its context"
+			} else {
+				o.Verdict, o.Reason = Finding, "the "+cl+" clause is evaluated against "+describeVal(ci.Common().Args[1])+", which is not (at every call site) an element of the list the pattern selected: a context-relative clause no longer sees the object it is applied to"
+			}
+			r.Add(o)
+		}
+	}
+	return n
+}
+
+// ---------------------------------------------------------------------------------------
+// WSDEF (C04): there is one definition of whitespace in the lexer.
+//
+// "The parse does not depend on optional whitespace between tokens" needs every place that
+// tells whitespace from token text to use the same set of characters: a character that is
+// skipped between tokens but does not end a name (or the reverse) changes the parse when it is
+// the optional whitespace. Definitions are collected from the resolved program of package jparse:
+// (1) two or more comparisons of one value with whitespace characters (a switch or an or-chain),
+// (2) a string constant of two or more characters that are all whitespace (a set to range over or
+// to search), (3) a call of unicode.IsSpace. All definitions must denote the same set.
+// ---------------------------------------------------------------------------------------
+
+func runWSDEF(c *Ctx, r *Result, rule string) int {
+	lib := c.W.Lib["jparse"]
+	if lib == nil {
+		r.LoseAnchor("WSDEF: package jparse not loaded")
+		return 0
+	}
+	isWS := func(k int64) bool {
+		switch k {
+		case ' ', '\t', '\n', '\r', '\v', '\f', 0x85, 0xA0:
+			return true
+		}
+		return false
+	}
+	type def struct {
+		fn   *ssa.Function
+		pos  token.Pos
+		kind string
+		set  map[int64]bool
+	}
+	var defs []def
+	for _, f := range c.W.FuncsOf(PkgSet{lib.Types: true}) {
+		if !c.RCompile.Set[f] && !c.RInit.Set[f] {
+			continue
+		}
+		byVal := map[ssa.Value]*def{}
+		var order []ssa.Value
+		for _, ins := range instrsIn(f) {
+			switch x := ins.(type) {
+			case *ssa.BinOp:
+				if x.Op != token.EQL && x.Op != token.NEQ {
+					continue
+				}
+				for _, pr := range [][2]ssa.Value{{x.X, x.Y}, {x.Y, x.X}} {
+					k, ok := intConstOf(pr[1])
+					if !ok || !isWS(k) {
+						continue
+					}
+					if _, isConst := pr[0].(*ssa.Const); isConst {
+						continue
+					}
+					d := byVal[pr[0]]
+					if d == nil {
+						d = &def{fn: f, pos: x.Pos(), kind: "comparisons", set: map[int64]bool{}}
+						byVal[pr[0]] = d
+						order = append(order, pr[0])
+					}
+					d.set[k] = true
+				}
+			case *ssa.Call:
+				if g := x.Call.StaticCallee(); g != nil && g.String() == "unicode.IsSpace" {
+					defs = append(defs, def{fn: f, pos: x.Pos(), kind: "unicode.IsSpace", set: map[int64]bool{' ': true, '\t': true, '\n': true, '\r': true, '\v': true, '\f': true, 0x85: true, 0xA0: true}})
+				}
+			}
+			var ops []*ssa.Value
+			for _, op := range ins.Operands(ops) {
+				if op == nil || *op == nil {
+					continue
+				}
+				k, ok := (*op).(*ssa.Const)
+				if !ok || k.Value == nil || k.Value.Kind() != constant.String {
+					continue
+				}
+				str := constant.StringVal(k.Value)
+				rs := []rune(str)
+				if len(rs) < 2 {
+					continue
+				}
+				all := true
+				set := map[int64]bool{}
+				for _, ch := range rs {
+					if !isWS(int64(ch)) {
+						all = false
+					}
+					set[int64(ch)] = true
+				}
+				if all && len(set) >= 2 {
+					defs = append(defs, def{fn: f, pos: ins.Pos(), kind: "string constant", set: set})
+				}
+			}
+		}
+		for _, v := range order {
+			if d := byVal[v]; len(d.set) >= 2 {
+				defs = append(defs, *d)
+			}
+		}
+	}
+	if len(defs) == 0 {
+		return 0
+	}
+	show := func(s map[int64]bool) string {
+		var ks []int
+		for k := range s {
+			ks = append(ks, int(k))
+		}
+		sort.Ints(ks)
+		var out []string
+		for _, k := range ks {
+			out = append(out, strconv.QuoteRune(rune(k)))
+		}
+		return "{" + strings.Join(out, ", ") + "}"
+	}
+	// the reference is the largest definition (ties: the first in function order)
+	ref := 0
+	for i, d := range defs {
+		if len(d.set) > len(defs[ref].set) {
+			ref = i
+		}
+	}
+	ord := map[string]int{}
+	for i, d := range defs {
+		k := shortFn(d.fn) + ":" + d.kind
+		ord[k]++
+		o := Obligation{Rule: rule, Key: fmt.Sprintf("%s#%d", k, ord[k]), Fn: shortFn(d.fn), Pos: c.W.Pos(d.pos), Nontrivial: true}
+		same := len(d.set) == len(defs[ref].set)
+		for ch := range d.set {
+			if !defs[ref].set[ch] {
+				same = false
+			}
+		}
+		switch {
+		case i == ref:
+			o.Verdict, o.Reason = Discharged, fmt.Sprintf("whitespace is %s here (%s); %d other definition(s) compared with it", show(d.set), d.kind, len(defs)-1)
+		case same:
+			o.Verdict, o.Reason = Discharged, "the same set as in "+shortFn(defs[ref].fn)
+		default:
+			o.Verdict, o.Reason = Finding, fmt.Sprintf("a second definition of whitespace, %s (%s), differs from %s in %s: a character in the difference is skipped between tokens in one place and is token text in the other, so the parse depends on which whitespace character separates two tokens", show(d.set), d.kind, show(defs[ref].set), shortFn(defs[ref].fn))
+		}
+		r.Add(o)
+	}
+	return len(defs)
 }
